@@ -59,7 +59,9 @@ def handle (j : Json) : Except String Json := do
     | _ =>
       let relJ : Json := match d, y0 with
         | [d1], [y1] => if 0 < d1 ∧ 0 < y1 then .bool (accRelFails tol d1 y1 maxSteps) else .null
-        | _, _ => .null
+        | _, _ =>
+          if d.length == y0.length && d.all (fun x => decide (0 < x)) && y0.all (fun x => decide (0 < x))
+          then .bool (accRelVecFails tol d y0 maxSteps) else .null
       Json.mkObj [("abs_fails", .bool (accAbsFails tol d)), ("rel_fails", relJ)]
   pure (Json.mkObj [("loop", outJ), ("result", resJ), ("row", rowJ), ("boundary", boundaryJ),
     ("integ", Json.mkObj [("t0", ratJ sim.integ.t0), ("y0", ratsJ sim.integ.y0)])])
